@@ -44,6 +44,7 @@ type Spec struct {
 	UnwindBy    map[string]int    `json:"unwind_by"`
 	AllowInit   []string          `json:"allow_init"`
 	DenyPkgs    []string          `json:"deny_pkgs"`
+	AllowPkgs   []string          `json:"allow_pkgs"`
 	Replace     map[string]string `json:"replace"` // real function -> harness function
 	Explanation string            `json:"explanation"`
 	Bounds      map[string]string `json:"bounds"`
@@ -244,6 +245,9 @@ func cmdRun(args []string) int {
 	}
 	for _, p := range spec.DenyPkgs {
 		eng.denyPkgs[p] = true
+	}
+	for _, p := range spec.AllowPkgs {
+		delete(eng.denyPkgs, p)
 	}
 	if rp := prog.ImportedPackage("runtime"); rp != nil {
 		if t := rp.Type("errorString"); t != nil {
